@@ -5,6 +5,7 @@ mod c13;
 mod c14;
 mod c15;
 mod c16;
+mod c17;
 mod c23;
 mod c25;
 mod c26;
@@ -28,6 +29,8 @@ fn main() {
         "c14-e2e" => c14::e2e(rest),
         "c15-replay" => c15::replay(rest),
         "c16-record" => c16::record(rest),
+        "c17-record" => c17::record(rest),
+        "c17-probe" => c17::probe(rest),
         "c23-record" => c23::record(rest),
         "c25-record" => c25::record(rest),
         "c26-replay" => c26::replay(rest),
